@@ -67,6 +67,10 @@ func (h *huffmanOnly) encodeBlock(final bool, flush bool) error {
 		_, err := h.w.Write(h.buf.output[:h.buf.idx])
 		return err
 	}
+	if h.offset == 0 {
+		// nothing pending: a block header without an end-of-block code is not a block
+		return nil
+	}
 
 	bytesFreq(&h.hist, h.buffer[:h.offset])
 	h.hist.reduceCounts()
@@ -81,7 +85,9 @@ func (h *huffmanOnly) encodeBlock(final bool, flush bool) error {
 	for num < h.offset {
 		h.buf.Sync()
 		num += optimizedEncodeBytes(&h.hist, h.buffer[num:h.offset], &h.buf)
-		if num == h.offset && flush {
+		if num == h.offset && final {
+			// only the final block is padded to a byte boundary; after a
+			// non-final block the sync marker written by Flush does the alignment
 			h.buf.flushLastByte()
 		}
 		_, err := h.w.Write(h.buf.output[:h.buf.idx])
